@@ -336,6 +336,25 @@ pub static OPS: &[Op] = &[
         let exp = day_index(y, mo, d) * DAY_NS + h * 3_600_000_000_000 + mi * 60_000_000_000 + s * 1_000_000_000 + ns - greg_zero(a[7].ts());
         (match r { Ok(e) => format!("{} {:?}", show_d(e.duration), e.time_scale), Err(_) => "Err".to_string() }, format!("{} {:?}", show_total(exp), a[7].ts()))
     }},
+    // ---------------------------------------------------------------- C16 weekdays of epochs
+    Op { name: "epoch_weekday", sig: &[Ty::Dur, Ty::UTs], pre: |a| conv_ok(a[0].total(), a[1].ts(), TimeScale::TAI), f: |a| {
+        let e = Epoch::from_duration(a[0].dur(), a[1].ts());
+        let tai = a[0].total() + scale_zero(a[1].ts()).unwrap();
+        let own = e.weekday_in_time_scale(a[1].ts());
+        (format!("{:?} {:?}", e.weekday(), own),
+         format!("{:?} {:?}", hifitime::Weekday::from(tai.div_euclid(DAY_NS).rem_euclid(7) as u8), hifitime::Weekday::from(a[0].total().div_euclid(DAY_NS).rem_euclid(7) as u8)))
+    }},
+    Op { name: "epoch_next_previous", sig: &[Ty::Dur, Ty::UTs, Ty::Wd], pre: |a| conv_ok(a[0].total(), a[1].ts(), TimeScale::TAI) && a[0].total().abs() < 30_000 * NPC, f: |a| {
+        let e = Epoch::from_duration(a[0].dur(), a[1].ts());
+        let tai = a[0].total() + scale_zero(a[1].ts()).unwrap();
+        let cur = tai.div_euclid(DAY_NS).rem_euclid(7);
+        let want = u8::from(a[2].wd()) as i128;
+        let kn = if (want - cur).rem_euclid(7) == 0 { 7 } else { (want - cur).rem_euclid(7) };
+        let kp = if (cur - want).rem_euclid(7) == 0 { 7 } else { (cur - want).rem_euclid(7) };
+        let (n, p) = (e.next(a[2].wd()), e.previous(a[2].wd()));
+        (format!("{} {} {:?} {:?}", show_d(n.duration), show_d(p.duration), n.time_scale, p.time_scale),
+         format!("{} {} {:?} {:?}", show_total(a[0].total() + kn * DAY_NS), show_total(a[0].total() - kp * DAY_NS), a[1].ts(), a[1].ts()))
+    }},
 ];
 
 fn conv_ok(total: i128, src: TimeScale, dst: TimeScale) -> bool {
